@@ -108,6 +108,15 @@ func Fixtures() map[string]fixture {
 			"a.yaml":        []byte(cmDoc("cm1", "p1", "v1")),
 		}},
 		"img/broken:v1": {"pullError", nil},
+		// a multi-component package: spec.component selects what is deployed ("" = the root)
+		"img/multi:v1": {"valid", packages.Files{
+			"manifest.yaml":                     []byte(manifestYAML("app", "  components: {}\n")),
+			"a.yaml":                            []byte(cmDoc("root", "p1", "v1")),
+			"components/backend/manifest.yaml":  []byte(manifestYAML("backend", "")),
+			"components/backend/a.yaml":         []byte(cmDoc("backend", "p1", "v1") + "---\n" + widgetDoc("wb", "p2", 1)),
+			"components/frontend/manifest.yaml": []byte(manifestYAML("frontend", "")),
+			"components/frontend/a.yaml":        []byte(cmDoc("frontend", "p1", "v1")),
+		}},
 	}
 }
 
@@ -162,6 +171,11 @@ func (p scriptedPuller) Pull(ctx context.Context, image string) (*packages.RawPa
 // classWithConfig refines the class of images whose manifest declares a configuration schema: whether the
 // Package is admissible depends on spec.config (size must be an integer; required for img/needsconfig).
 func (w *World) classWithConfig(image, class string, m map[string]any) string {
+	if comp, _ := nestedMap(m, "spec")["component"].(string); comp != "" {
+		if image != "img/multi:v1" || (comp != "backend" && comp != "frontend") {
+			return "loadError" // no such component (or not a multi-component package)
+		}
+	}
 	if image != "img/needsconfig:v1" && image != "img/templated:v1" {
 		return class
 	}
@@ -207,6 +221,16 @@ var KPK = func(name string) Key { return Key{pkoGroup, "Package", NS, name} }
 func (w *World) EnvSetPackageImage(k Key, image string) bool {
 	return w.EnvMutate("EnvSetImage", k, map[string]any{"image": image}, func(m map[string]any) {
 		nestedMap(m, "spec")["image"] = image
+	})
+}
+
+func (w *World) EnvSetPackageComponent(k Key, comp string) bool {
+	return w.EnvMutate("EnvSetComponent", k, map[string]any{"component": comp}, func(m map[string]any) {
+		if comp == "" {
+			delete(nestedMap(m, "spec"), "component")
+		} else {
+			nestedMap(m, "spec")["component"] = comp
+		}
 	})
 }
 
@@ -354,6 +378,12 @@ func packageScenarios() []Scenario {
 		mk("pkg-openshift", "img/openshift:v1", nil, nil),
 		mk("pkg-kube99", "img/kube99:v1", nil, each),
 		mk("pkg-broken", "img/broken:v1", nil, nil),
+		// multi-component image: only spec.component is edited
+		{Name: "pkg-multi", Setup: func(w *World) {
+			p := NewPackage("p1", "img/multi:v1", nil)
+			p.Spec.Component = "backend"
+			w.EnvCreate(p)
+		}},
 		// created already paused: nothing may be pulled or deployed until it is unpaused
 		{Name: "pkg-paused-start", Setup: func(w *World) {
 			p := NewPackage("p1", "img/valid:v1", nil)
@@ -417,6 +447,8 @@ func init() {
 					// user edits the Package spec
 					pool, pinned := configPools[sc.Name]
 					switch c := rng.Intn(4); {
+					case sc.Name == "pkg-multi" && c < 3:
+						w.EnvSetPackageComponent(KPK("p1"), []string{"", "backend", "frontend", "frontend", "nope"}[rng.Intn(5)])
 					case pinned && c < 3:
 						w.EnvSetPackageConfig(KPK("p1"), pool[rng.Intn(len(pool))])
 					case c < 2:
